@@ -5,7 +5,7 @@
    representations.  The positional engine (Relation x Relation) is in addition transcribed
    (Rep/RelJoin.v) and proved to refine the specification join: the last block of this file.  `unnest` has no working surface syntax in the pinned tree
    (compileArrow panics "unfinished"), so it is outside the claim (C10 finding). *)
-From Arrai Require Import Base.Val Spec.SetAlg Eval.Interp Proofs.ValOrder Proofs.SetAlgP Proofs.RelP Rep.RelJoin Proofs.RelJoinP.
+From Arrai Require Import Base.Val Spec.SetAlg Eval.Interp Proofs.ValOrder Proofs.SetAlgP Proofs.RelP Rep.RelJoin Proofs.RelJoinP Rep.GenJoin Proofs.GenJoinP.
 
 Theorem C04_join_is_the_set_of_agreeing_combinations :
   forall op a b ha hb r,
@@ -218,4 +218,25 @@ Example C04_example_engine_hypotheses :
 Proof.
   split; [intros v [<-|[]]; reflexivity|]. split; [intros i [<-|[]]; lia|]. split; [reflexivity|].
   right; right. split; reflexivity.
+Qed.
+
+(* ------------------------------------------------------------------------------------------
+   The generic engine (Rep/GenJoin.v: RelationAttrs, the Joiner's generic branch, GenericJoin with its
+   map from key to the two slots, the combine functions of the eight operators, Merge), used whenever
+   an operand is not a Relation: for all operands whose members are name-sorted tuples (every canonical
+   value) it never hands a nil tuple to the set builder and returns exactly the specification join -
+   including the error when an operand is not a relation. *)
+Theorem C04_generic_join_is_the_specification_join :
+  forall op a b, Forall tuple_sorted a -> Forall tuple_sorted b -> generic_join op a b = Some (join_data op a b).
+Proof. exact generic_join_is_join_data. Qed.
+Print Assumptions C04_generic_join_is_the_specification_join.
+
+Example C04_example_generic_operands :
+  Forall tuple_sorted [vitem 0 (vint 5); vitem 1 (vint 6)] /\
+  generic_join JCompose [vitem 0 (vint 5); vitem 1 (vint 6)] [VTup [(n_at, vint 1); ([120], vint 9)]]
+  = Some (Ok (VSet [VTup [(n_item, vint 6); ([120], vint 9)]])).
+Proof.
+  split; [|vm_compute; reflexivity].
+  apply Forall_cons; [|apply Forall_cons; [|apply Forall_nil]];
+    (split; [intros q [<-|[]]; reflexivity | split; [intros q [] | exact I]]).
 Qed.
